@@ -280,6 +280,27 @@ def chandrupatla(ctx, rep):
                 if isinstance(y, ast.Assign) and isinstance(y.targets[0], ast.Subscript) and isinstance(y.targets[0].value, ast.Name) \
                         and y.targets[0].value.id == 't':
                     vector_t = (y, s.orelse)
+    # every path through the step selection assigns t afresh (bisection 0.5 unless interpolation is chosen)
+    from ..idioms import enum_paths
+    for s in ast.walk(lp):
+        if isinstance(s, ast.If) and isinstance(s.test, ast.UnaryOp) and isinstance(s.test.op, ast.Not) \
+                and isinstance(s.test.operand, ast.Name) and s.test.operand.id == 'shape':
+            for which, body in (('scalar', s.body), ('vector', s.orelse)):
+                paths = enum_paths(body)
+                good = bool(paths)
+                halves = True
+                for p in paths:
+                    assigns = [x for x in p.stmts if isinstance(x, ast.Assign) and isinstance(x.targets[0], ast.Name) and x.targets[0].id == 't']
+                    good = good and bool(assigns)
+                    interp = any(pol and isinstance(t_, ast.Name) and t_.id == 'iqi' for t_, pol in p.conds)
+                    if assigns and not interp:
+                        v = assigns[0].value
+                        halves = halves and (const_value(v) == 0.5 or (isinstance(v, ast.Call) and call_name(v) == 'full' and len(v.args) == 2 and const_value(v.args[1]) == 0.5))
+                rep.check('D4.scalar', fn, s, good, f'{which} branch: t is assigned on every path of the iteration',
+                          f'{which} branch: some path leaves t unassigned, so the step of the previous iteration is reused where a bisection step is required',
+                          construct=f'{which} branch assigns t')
+                rep.check('D4.scalar', fn, s, halves, f'{which} branch: the fallback step is the bisection step 0.5',
+                          f'{which} branch: the fallback step is not 0.5', construct=f'{which} branch fallback')
     if scalar_t is None or vector_t is None:
         rep.undecided('D4.scalar', fn, lp, 'scalar / vector interpolation branches not recognised', construct='interpolation formula')
     else:
